@@ -1196,8 +1196,9 @@ package vm
 //@   requires [mainchain!init] !isSubChain()
 //@   requires [nonneg] big(value) >= 0
 //@   requires [wf]     forall a common.Address :: balOf(a) >= 0
-//@   ensures [reverted] result4 != nil && result4 != ErrCodeStoreOutOfGas && result4 != errSubChainNoCreate && result4 != ErrDepth && result4 != ErrInsufficientBalance && result4 != ErrContractAddressCollision ==> ghost(stver) == @select(ghost(snapver), old(ghost(snapnext)))
-//@   ensures [faillogs] result4 != nil && result4 != ErrCodeStoreOutOfGas ==> len(result3) == 0
+//@   # (a creation that cannot pay for storing its code is a failed creation like any other: CREATE reports it as 0)
+//@   ensures [reverted] result4 != nil && result4 != errSubChainNoCreate && result4 != ErrDepth && result4 != ErrInsufficientBalance && result4 != ErrContractAddressCollision ==> ghost(stver) == @select(ghost(snapver), old(ghost(snapnext)))
+//@   ensures [faillogs] result4 != nil ==> len(result3) == 0
 
 // The EIP-3074 sponsored call: the value is debited from the SPONSOR, so it is the sponsor's balance that must
 // cover it - the same conservation clauses as EVM.Call (the nonce bump before the snapshot is deliberate and
